@@ -140,6 +140,18 @@ static void __attribute__((noinline)) do_call(struct call *c) {
 	else if (!strcmp(op, "mult")) rc = bn_mult(&A, pB);
 	else if (!strcmp(op, "square")) rc = bn_square(&A);
 	else if (!strcmp(op, "mult_digit")) rc = bn_mult_digit(&A, digit_of(vb));
+	else if (!strcmp(op, "digit_mult")) { /* bn_digit_mult(a, b) -> A = hi:lo */
+		bn_digit_t lo = 0, hi = 0;
+		bn_digit_mult(digit_of(va), digit_of(vb), &lo, &hi);
+		A.num[0] = lo; A.num[1] = hi; A.digits = (hi != 0) ? 2 : ((lo != 0) ? 1 : 0);
+	}
+	else if (!strcmp(op, "digit_div")) { /* bn_digit_div(a_lo, a_hi, b) -> A = quotient hi:lo, R = remainder hi:lo */
+		bn_digit_t qlo = 0, qhi = 0, rlo = 0, rhi = 0;
+		rc = bn_digit_div(digit_of(va), digit_of(va + BN_DIGIT_SIZE), digit_of(vb), &qlo, &qhi, &rlo, &rhi);
+		A.num[0] = qlo; A.num[1] = qhi; A.digits = (qhi != 0) ? 2 : ((qlo != 0) ? 1 : 0);
+		R.num[0] = rlo; R.num[1] = rhi; R.digits = (rhi != 0) ? 2 : ((rlo != 0) ? 1 : 0);
+		res2 = &R;
+	}
 	else if (!strcmp(op, "div")) {
 		bn_p rem = &R;
 		if (!strcmp(al, "nul") || !strcmp(al, "abn")) rem = NULL;
